@@ -141,6 +141,59 @@ def detector_pair(fam, p, items, layout, s):
     return {"cfg": {"rel": "Equal", "fam": fam}, "ev": ev, "fam": fam, "params": p, "items": items, "layout": layout, "seed": s}
 
 
+def md3_pair(seed, mode, L, sens):
+    """MD3 (the one detector whose inputs are frames with a label column and whose protocol has a third call, give_oracle_label):
+    A gets private copies; B gets the caller's own frames - mode "garbage": a new frame per call, overwritten after the call;
+    mode "reuse": ONE frame for samples and ONE for labelled samples, refilled in place before every call (a caller's row buffer)."""
+    import random
+    from menelaus.concept_drift import MD3
+    from . import drv_md3 as M
+    rng = random.Random(seed)
+    ref = pd.DataFrame([M.sample_row(rng, i % 3 == 0, rng.random() < 0.85) for i in range(rng.choice([24, 40]))])
+    dets = []
+    for _ in (0, 1):
+        clf = M.ThresholdClf("fixed").fit(ref[["x0", "x1"]], ref["y"])
+        dets.append(MD3(clf=clf, margin_calculation_function=M.margin, sensitivity=sens, k=4, oracle_data_length_required=L))
+    a, b = dets
+    a.set_reference(ref.copy(), target_name="y")
+    mine = ref.copy()
+    d0 = digest(mine)
+    b.set_reference(mine, target_name="y")
+    modified = d0 != digest(mine)
+    mine.iloc[:, :] = 9
+    ubuf = pd.DataFrame([{"x0": 0.0, "x1": 0.0}])
+    lbuf = pd.DataFrame([{"x0": 0.0, "x1": 0.0, "y": 0}])
+    ev, script = [], []
+    for t in range(260):
+        lab = bool(a.waiting_for_oracle)
+        row = M.sample_row(rng, rng.random() < (0.5 if lab else 0.65), (rng.random() < 0.5) if lab else None)
+        script.append(row)
+        meth = "give_oracle_label" if lab else "update"
+        getattr(a, meth)(pd.DataFrame([row]))
+        try:
+            if mode == "reuse":
+                buf = lbuf if lab else ubuf
+                for c, v in row.items():
+                    buf.loc[0, c] = v
+            else:
+                buf = pd.DataFrame([row])
+            d0 = digest(buf)
+            getattr(b, meth)(buf)
+            modified |= d0 != digest(buf)
+            if mode == "garbage":
+                buf.iloc[:, :] = 7
+            e = P.step_event(a, b, note=meth)
+        except Exception as ex:  # noqa
+            e = P.step_event(a, b, note=meth)
+            e["b"]["tag"] = "raised " + type(ex).__name__
+            ev.append(e)
+            break
+        if modified:
+            e["b"]["tag"] = "CALLER DATA MODIFIED"
+        ev.append(e)
+    return {"cfg": {"rel": "Equal", "fam": "MD3"}, "ev": ev, "fam": "MD3", "mode": mode, "L": L, "sens": sens, "seed": seed}
+
+
 # ------------------------------------------------------------------ injectors
 def injector_pair(kind, frame, rng_seed):
     import random
